@@ -58,6 +58,7 @@ Definition R (c : conn) (m : mon) : Prop :=
   0 <= cc_init_win c <= 2147483647 /\
   0 <= m_last_sid m /\ m_last_sid m < cc_next_id c /\ Z.odd (cc_next_id c) = true /\
   Forall (fun ms => ms_id ms <= m_last_sid m) (m_streams m) /\
+  Forall (fun ms => 0 < ms_id ms) (m_streams m) /\
   1 <= cc_max_frame c /\ 0 <= cc_prio_len c /\
   desc (cc_next_id c) (cc_streams c).
 
@@ -142,7 +143,7 @@ Proof.
 Qed.
 
 Ltac dR H :=
-  destruct H as (Rhdr & Rpend & Rmf & Riw & Rms & Rst & Rf0 & Rfw & Rfmax & Riwr & Rl0 & Rlast & Rodd & Rids & Rmf1 & Rprio & Rdesc).
+  destruct H as (Rhdr & Rpend & Rmf & Riw & Rms & Rst & Rf0 & Rfw & Rfmax & Riwr & Rl0 & Rlast & Rodd & Rids & Rpos & Rmf1 & Rprio & Rdesc).
 
 (* ---- one lemma per event ---- *)
 Definition step_ok (c : conn) (m : mon) (e : cev) : Prop :=
@@ -265,6 +266,7 @@ Proof.
     destruct HS' as (H1 & H2 & H3 & H4 & H5 & H6 & H7 & H8 & H9).
     unfold SR, cs_done in *. cbn in *. repeat split; auto.
   - apply Forall_upd_ms; auto.
+  - apply Forall_upd_ms; auto.
   - apply desc_upd; [assumption|]. intros s. destruct (cs_forgotten s); reflexivity.
 Qed.
 
@@ -289,6 +291,7 @@ Proof.
     intros m1 (H1 & H2 & H3 & H4 & H5 & H6 & H7 & H8 & H9).
     unfold SR, cs_done, ms_closed in *. cbn. repeat split; auto; try (intros; discriminate);
       try (symmetry; apply orb_true_r).
+  - apply Forall_upd_ms; auto.
   - apply Forall_upd_ms; auto.
   - apply desc_upd; [assumption|reflexivity].
 Qed.
@@ -408,5 +411,222 @@ Proof.
     destruct (fin && (take =? want)); [|exact H].
     apply (SR_end_sent _ _ _ H).
   - apply Forall_upd_ms; auto. intros s0 Hs0. destruct (ms_closed s0), (fin && (take =? want)); cbn; exact Hs0.
+  - apply Forall_upd_ms; auto. intros s0 Hs0. destruct (ms_closed s0), (fin && (take =? want)); cbn; exact Hs0.
   - apply desc_upd; [assumption|]. intros s0. destruct (fin && (take =? want)); reflexivity.
+Qed.
+
+(* ---- header blocks ---- *)
+Lemma cont_ok : forall fuel m sid rest,
+  0 < rest <= Z.of_nat fuel -> m_hdr_open m = sid -> sid <> 0 -> m_pending m = [] -> 1 <= m_max_frame m ->
+  mon_steps m (cl (cont_frames fuel sid rest (m_max_frame m))) = Some (set_hdr_open m 0).
+Proof.
+  induction fuel as [|k IH]; intros m sid rest Hr Hh Hs Hp Hm; [simpl in Hr; lia|].
+  cbn [cont_frames]. replace (rest <=? 0) with false by lia.
+  cbn [cl map mon_steps monitor_step]. unfold mon_client.
+  rewrite Hh. replace (sid =? 0) with false by lia.
+  cbn [negb andb is_continuation_on]. rewrite Z.eqb_refl. cbn [negb andb frame_len].
+  unfold max_frame_allowed. rewrite Hp. cbn [pending_max].
+  replace (m_max_frame m <? Z.min rest (m_max_frame m)) with false by lia.
+  cbn [ok].
+  destruct (rest - Z.min rest (m_max_frame m) <=? 0) eqn:E.
+  - (* last fragment *)
+    destruct k; cbn [cont_frames cl map mon_steps]; [reflexivity|].
+    rewrite E. reflexivity.
+  - fold (cl (cont_frames k sid (rest - Z.min rest (m_max_frame m)) (m_max_frame m))).
+    apply IH; auto. rewrite Nat2Z.inj_succ in Hr. lia.
+Qed.
+
+Lemma R_hdr_irrelevant : forall c m, R c (set_hdr_open m 0) -> m_hdr_open m = 0 -> R c m.
+Proof. intros c m H H0. destruct m; cbn in *. subst. exact H. Qed.
+
+(* a complete header block for stream sid, starting from a monitor state m1 = state after the
+   HEADERS frame with hdr_open possibly set *)
+Lemma hdr_tail_ok : forall m sid hlen chunk,
+  m_hdr_open m = 0 -> m_pending m = [] -> 1 <= m_max_frame m -> sid <> 0 ->
+  0 <= chunk <= hlen ->
+  (hlen - chunk <=? 0) = false ->
+  mon_steps (set_hdr_open m sid) (cl (cont_frames (Z.to_nat hlen) sid (hlen - chunk) (m_max_frame m))) = Some m.
+Proof.
+  intros m sid hlen chunk H0 Hp Hm Hs Hc E.
+  replace (m_max_frame m) with (m_max_frame (set_hdr_open m sid)) by reflexivity.
+  rewrite cont_ok; cbn; auto; try lia.
+  destruct m; cbn in *; subst; reflexivity.
+Qed.
+
+Lemma Forall_le_weaken : forall (l : list mstream) a b, Forall (fun ms => ms_id ms <= a) l -> a <= b ->
+  Forall (fun ms => ms_id ms <= b) l.
+Proof. intros l a b H Hab. eapply Forall_impl; [|exact H]. simpl. intros. lia. Qed.
+
+Lemma odd_plus2 : forall z, Z.odd z = true -> Z.odd (z + 2) = true.
+Proof. intros. rewrite Z.odd_add. rewrite H. reflexivity. Qed.
+
+Lemma odd_not_even : forall z, Z.odd z = true -> Z.even z = false.
+Proof. intros. rewrite <- Z.negb_odd. rewrite H. reflexivity. Qed.
+
+Lemma step_open : forall c m hlen es, R c m -> step_ok c m (EOpen hlen es).
+Proof.
+  intros c m hlen es HR. unfold step_ok. cbn [conn_step].
+  destruct (negb (cc_dead c) && (active_count (cc_streams c) <? cc_max_streams c) && (1 <=? hlen)
+            && (cc_prio_len c <? cc_max_frame c) && (cc_next_id c <? 2147483647)) eqn:G;
+    [|apply noop_ok; exact HR].
+  pose proof HR as HR0. dR HR.
+  assert (Hcnt : active_count (cc_streams c) < cc_max_streams c) by lia.
+  assert (Hh : 1 <= hlen) by lia.
+  assert (Hp : cc_prio_len c < cc_max_frame c) by lia.
+  set (sid := cc_next_id c) in *.
+  assert (Hsid : sid <> 0) by lia.
+  cbn [fst snd]. unfold hdr_frames.
+  set (chunk := Z.min hlen (cc_max_frame c - cc_prio_len c)).
+  assert (Hchunk : 1 <= chunk <= hlen /\ chunk + cc_prio_len c <= cc_max_frame c) by (unfold chunk; lia).
+  cbn [cl map mon_steps monitor_step].
+  rewrite mon_client_open0 by (cbn [frame_len]; auto; lia).
+  assert (Hnone : find_ms sid (m_streams m) = None).
+  { eapply F2_find_none; [exact Rst|]. eapply desc_find_none; [exact Rdesc|]. unfold sid. lia. }
+  rewrite Hnone. rewrite (odd_not_even _ Rodd). replace (sid <=? m_last_sid m) with false by (unfold sid; lia).
+  cbn [orb].
+  assert (Hallow : streams_allowed m = true).
+  { unfold streams_allowed. destruct (m_max_streams m) as [v|] eqn:Ev; [|reflexivity].
+    rewrite Rpend. cbn [pending_max]. pose proof (Rms v eq_refl). pose proof (F2_count _ _ _ Rst). lia. }
+  rewrite Hallow. cbn [negb ok]. cbv zeta.
+  assert (Hflow : snd (out_add_stream 0 (cc_flow c) (wrap32 (cc_init_win c))) = cc_init_win c).
+  { rewrite wrap32_id by (unfold in32; lia). rewrite out_add_stream_eq by (unfold in32; lia).
+    cbn [snd]. replace (in32b (0 + cc_init_win c)) with true by (symmetry; apply in32b_true; unfold in32; lia).
+    lia. }
+  rewrite Hflow.
+  (* the state after the whole block has hdr_open = 0 *)
+  set (M := mkMon (m_max_frame m) (m_init_win m) (m_max_streams m) (m_pending m) (m_conn_win m)
+                  (mkMS sid (m_init_win m) (m_c_init_win m) es false false false :: m_streams m)
+                  sid 0 (m_sent m) (m_acked m) (m_pings m) (m_c_conn_win m) (m_c_init_win m)).
+  exists M. split.
+  - destruct (hlen - chunk <=? 0) eqn:E.
+    + (* single HEADERS frame *)
+      replace (cont_frames (Z.to_nat hlen) sid (hlen - chunk) (cc_max_frame c)) with (@nil frame).
+      * reflexivity.
+      * destruct (Z.to_nat hlen); cbn [cont_frames]; [reflexivity|]. rewrite E. reflexivity.
+    + change (mkMon (m_max_frame m) (m_init_win m) (m_max_streams m) (m_pending m) (m_conn_win m)
+                  (mkMS sid (m_init_win m) (m_c_init_win m) es false false false :: m_streams m)
+                  sid sid (m_sent m) (m_acked m) (m_pings m) (m_c_conn_win m) (m_c_init_win m))
+        with (set_hdr_open M sid).
+      rewrite <- Rmf. change (m_max_frame m) with (m_max_frame M).
+      apply hdr_tail_ok; cbn; auto; try lia.
+  - unfold R, M. cbn. repeat split; auto; try lia.
+    + constructor; [|exact Rst].
+      unfold SR, cs_done, ms_closed. cbn. rewrite Riw. repeat split; auto; try lia;
+        try (intros; discriminate). rewrite orb_false_r. reflexivity.
+    + apply odd_plus2; assumption.
+    + constructor; [cbn; lia|]. eapply Forall_le_weaken; [exact Rids|]. unfold sid. lia.
+    + constructor; [cbn; lia|]. exact Rpos.
+Qed.
+
+Lemma find_ms_In : forall sid l m0, find_ms sid l = Some m0 -> In m0 l /\ ms_id m0 = sid.
+Proof.
+  induction l as [|s r IH]; simpl; intros m0 H; [discriminate|].
+  destruct (ms_id s =? sid) eqn:E.
+  - inversion H; subst. split; [left; reflexivity|lia].
+  - destruct (IH _ H). split; [right; assumption|assumption].
+Qed.
+
+Lemma guard3 : forall a b c d : bool, negb a && negb b && negb c && d = true ->
+  a = false /\ b = false /\ c = false /\ d = true.
+Proof. intros [] [] [] []; simpl; intros; try discriminate; auto. Qed.
+
+Lemma step_send_end : forall c m sid tlen, R c m -> step_ok c m (ESendEnd sid tlen).
+Proof.
+  intros c m sid tlen HR. unfold step_ok. cbn [conn_step].
+  destruct (find_cs sid (cc_streams c)) as [s|] eqn:Ef; [|apply noop_ok; exact HR].
+  destruct (negb (cs_forgotten s) && negb (cs_end_sent s) && negb (cs_reset s) && (cc_prio_len c <? cc_max_frame c)) eqn:G;
+    [|apply noop_ok; exact HR].
+  apply guard3 in G as (Hnf & Hes & Hrs & Hp).
+  pose proof HR as HR0. dR HR.
+  destruct (F2_find_some _ _ _ _ _ Rst Ef) as (m0 & Hfm & HS & Hid).
+  pose proof HS as (H1 & H2 & H3 & H4 & H5 & H6 & H7 & H8 & H9).
+  assert (Hcc : ms_cli_closed m0 = false) by (rewrite H2; unfold cs_done; rewrite Hes, Hrs; reflexivity).
+  assert (Hsid : sid <> 0).
+  { destruct (find_ms_In _ _ _ Hfm) as [Hin Hi]. rewrite Forall_forall in Rpos. specialize (Rpos _ Hin). lia. }
+  (* R after the client side of the stream is closed *)
+  assert (HRend : forall g, (forall x, SR (cc_init_win c) s x -> SR (cc_init_win c) (cs_set_end_sent s) (g x)) ->
+                   (forall x, ms_id (g x) = ms_id x) ->
+                   R (set_cstreams c (upd_cs sid cs_set_end_sent (cc_streams c)))
+                     (set_streams m (upd_ms sid g (m_streams m)))).
+  { intros g Hg Hgid. unfold R. cbn. repeat split; auto; try lia.
+    - eapply F2_upd_found; eauto.
+    - apply Forall_upd_ms; auto. intros x Hx. rewrite Hgid. exact Hx.
+    - apply Forall_upd_ms; auto. intros x Hx. rewrite Hgid. exact Hx.
+    - apply desc_upd; [assumption|reflexivity]. }
+  cbn [fst snd].
+  destruct (tlen <=? 0) eqn:Et.
+  - (* empty DATA frame with END_STREAM *)
+    cbn [mon_steps monitor_step].
+    rewrite mon_client_open0 by (cbn [frame_len]; auto; lia).
+    rewrite Hfm, Hcc. cbv zeta. cbn [Z.ltb Z.compare andb ok mon_steps].
+    eexists. split; [reflexivity|].
+    replace (m_conn_win m - 0) with (m_conn_win m) by lia.
+    assert (Hsame : set_conn_win m (m_conn_win m) = m) by (destruct m; reflexivity).
+    rewrite Hsame. apply HRend.
+    + intros x Hx. apply SR_end_sent.
+      destruct (ms_closed x) eqn:Ec; [exact Hx|].
+      eapply SR_ms_same; [exact Hx| | | | | |]; cbn; auto; lia.
+    + intros x. destruct (ms_closed x); reflexivity.
+  - (* trailers: a header block with END_STREAM on the open stream *)
+    unfold hdr_frames.
+    set (chunk := Z.min tlen (cc_max_frame c - cc_prio_len c)).
+    assert (Hchunk : 1 <= chunk <= tlen /\ chunk + cc_prio_len c <= cc_max_frame c) by (unfold chunk; lia).
+    cbn [cl map mon_steps monitor_step].
+    rewrite mon_client_open0 by (cbn [frame_len]; auto; lia).
+    rewrite Hfm, Hcc. cbv zeta. cbn [ok].
+    set (M := set_streams m (upd_ms sid ms_set_cli_closed (m_streams m))).
+    exists M. split.
+    + destruct (tlen - chunk <=? 0) eqn:E.
+      * replace (cont_frames (Z.to_nat tlen) sid (tlen - chunk) (cc_max_frame c)) with (@nil frame).
+        -- reflexivity.
+        -- destruct (Z.to_nat tlen); cbn [cont_frames]; [reflexivity|]. rewrite E. reflexivity.
+      * rewrite <- Rmf. change (m_max_frame m) with (m_max_frame M).
+        apply hdr_tail_ok; cbn; auto; try lia.
+    + apply HRend; [|reflexivity]. intros x Hx. apply SR_end_sent. exact Hx.
+Qed.
+
+Lemma SR_set_flow : forall i s m0 m1 f', SR i s m0 ->
+  ms_id m1 = ms_id m0 -> ms_cli_closed m1 = ms_cli_closed m0 -> ms_cli_reset m1 = ms_cli_reset m0 ->
+  ms_peer_ended m1 = ms_peer_ended m0 -> ms_peer_reset m1 = ms_peer_reset m0 ->
+  f' <= 2147483647 -> (cs_forgotten s = false -> i - 2147483647 <= f') ->
+  (ms_closed m1 = false -> f' <= ms_win m1) ->
+  SR i (cs_set_flow s f') m1.
+Proof.
+  intros i s m0 m1 f' (H1 & H2 & H3 & H4 & H5 & H6 & H7 & H8 & H9) E1 E2 E3 E4 E5 F1 F2 F3.
+  assert (Hc : ms_closed m1 = ms_closed m0) by (unfold ms_closed; rewrite E2, E3, E4, E5; reflexivity).
+  unfold SR, cs_done in *. cbn. rewrite E1, E2, E3, E4, E5, Hc in *. repeat split; auto.
+Qed.
+
+Lemma step_window_update : forall c m sid inc, R c m -> step_ok c m (EWindowUpdate sid inc).
+Proof.
+  intros c m sid inc HR. unfold step_ok. cbn [conn_step].
+  destruct ((1 <=? inc) && (inc <=? 2147483647)) eqn:G; [|apply noop_ok; exact HR].
+  pose proof HR as HR0. dR HR.
+  destruct (sid =? 0) eqn:E0.
+  - rewrite out_add_conn_eq by (unfold in32; lia).
+    cbn [fst snd mon_steps monitor_step ok mon_peer Z.eqb].
+    eexists. split; [destruct (in32b (cc_flow c + inc)); reflexivity|].
+    destruct (in32b (cc_flow c + inc)) eqn:Eb.
+    + apply in32b_true in Eb. unfold in32 in Eb. unfold R. cbn. repeat split; auto; lia.
+    + unfold R. cbn. repeat split; auto; lia.
+  - cbn [fst snd mon_steps monitor_step ok mon_peer]. rewrite E0.
+    eexists. split; [reflexivity|].
+    unfold R. cbn. repeat split; auto; try lia.
+    + apply F2_upd; [exact Rst|]. intros c0 m0 HS Hid.
+      pose proof HS as (H1 & H2 & H3 & H4 & H5 & H6 & H7 & H8 & H9).
+      destruct (cs_forgotten c0) eqn:Ef.
+      * (* forgotten => closed at the peer: its window no longer matters *)
+        assert (Hc : ms_closed (ms_add_win inc m0) = true) by (unfold ms_closed in *; cbn; auto).
+        unfold SR, cs_done in *. cbn. rewrite Ef. repeat split; auto; try (intros; discriminate).
+        unfold ms_closed in *; cbn in *. intros Hn. rewrite Hc in Hn. discriminate.
+      * pose proof (SR_in32 _ _ _ (proj1 Riwr) HS Ef) as Hin.
+        rewrite out_add_stream_eq by (unfold in32 in *; lia). cbn [snd].
+        eapply SR_set_flow; [exact HS| | | | | | | |]; cbn; auto.
+        -- destruct (in32b (cs_flow c0 + inc)) eqn:Eb; [apply in32b_true in Eb; unfold in32 in Eb; lia|lia].
+        -- intros _. specialize (H9 eq_refl). destruct (in32b (cs_flow c0 + inc)); lia.
+        -- intros Hc. assert (ms_closed m0 = false) by (unfold ms_closed in *; cbn in *; exact Hc).
+           specialize (H7 H). destruct (in32b (cs_flow c0 + inc)); lia.
+    + apply Forall_upd_ms; auto.
+    + apply Forall_upd_ms; auto.
+    + apply desc_upd; [assumption|]. intros s0. destruct (cs_forgotten s0); reflexivity.
 Qed.
